@@ -2,7 +2,7 @@ import ast
 import copy
 from contextlib import suppress
 from dataclasses import dataclass, field
-from typing import ClassVar, NoReturn
+from typing import ClassVar, NoReturn, cast
 
 from hugr import Wire
 
@@ -24,6 +24,32 @@ from guppylang_internals.span import Span, to_span
 from guppylang_internals.tys.printing import signature_to_str
 from guppylang_internals.tys.subst import Inst, Subst
 from guppylang_internals.tys.ty import FunctionType, Type
+
+
+def _fresh_args(args: list[ast.expr]) -> list[ast.expr]:
+    """Copies the AST structure of call arguments for one overload attempt.
+
+    Checking mutates argument *nodes* in place, so every attempt needs fresh nodes.
+    Everything that is not an AST node (types, places, comptime values, ...) is shared:
+    deep-copying those is unnecessary and fails for comptime arguments whose places hold
+    `GuppyObject`s (their `__getattr__` rejects `__deepcopy__`).
+    """
+    memo: dict[int, ast.AST] = {}
+
+    def go(x: object) -> object:
+        if isinstance(x, ast.AST):
+            if id(x) in memo:
+                return memo[id(x)]
+            new = copy.copy(x)
+            memo[id(x)] = new
+            for name, val in vars(x).items():
+                setattr(new, name, go(val))
+            return new
+        if isinstance(x, list):
+            return [go(y) for y in x]
+        return x
+
+    return [cast(ast.expr, go(arg)) for arg in args]
 
 
 @dataclass(frozen=True)
@@ -90,7 +116,7 @@ class OverloadedFunctionDef(CompiledCallableDef, CallableDef):
                 # Checking may mutate the argument nodes in place (e.g. the elements
                 # of a tuple literal are replaced by their coerced form). A failed
                 # attempt must not leak into the next one, so we work on a copy.
-                return defn.check_call(copy.deepcopy(args), ty, node, ctx)
+                return defn.check_call(_fresh_args(args), ty, node, ctx)
         return self._call_error(args, node, ctx, available_sigs, ty)
 
     def synthesize_call(
@@ -103,7 +129,7 @@ class OverloadedFunctionDef(CompiledCallableDef, CallableDef):
             available_sigs.append(defn.ty)
             with suppress(GuppyError):
                 # See `check_call`: every variant gets a fresh copy of the arguments
-                return defn.synthesize_call(copy.deepcopy(args), node, ctx)
+                return defn.synthesize_call(_fresh_args(args), node, ctx)
         return self._call_error(args, node, ctx, available_sigs)
 
     def _call_error(
